@@ -12,7 +12,7 @@ func init() {
 	register(&propDef{
 		ID:      "C08",
 		Level:   "other",
-		Explain: "Forwarding-header rules decided on every path of proxy.addHeaders / addResponseHeaders / ServeHTTP: (A1) the authoritative headers (configured client-IP header, configured TLS header) are written with Set, under no condition that depends on a header the client sent, with a value derived only from RemoteAddr / r.TLS / configuration; the TLS header is Set on the r.TLS != nil edge and Del'd on the other (exhaustive); (A2) the default-if-absent headers (X-Real-Ip, X-Forwarded-Proto/-Port/-Host) are written only under Get(sameKey) == \"\" and their values derive from the connection or the request's Host; (O1) in ServeHTTP no store to r.Host can reach the call that derives the forwarding headers (they must describe the host the client asked for, also for host= routes); (X1) every test of the Upgrade header in package proxy compares against the same constant set; (X2) on the websocket edge X-Forwarded-For is Set to prior + \", \" + peer with the peer last; (S1) Strict-Transport-Security is written only under r.TLS != nil, on the response; (R1) the request-id header is Set from the generator under RequestID != \"\" only; (P1) nothing in package proxy separates host and port of Request.Host / RemoteAddr with a bare ':' search (IPv6 literals) — net.SplitHostPort is used. (X3) the websocket X-Forwarded-For branch and the tunnel decision depend on the same request header (Upgrade only). (A3) the for= element fabio itself puts into Forwarded derives from RemoteAddr and from no client header; Not decided: the textual format of Forwarded and of the port/protocol values (string contents).",
+		Explain: "Forwarding-header rules. Sites are found by ROLE in the region of HTTPProxy.ServeHTTP (ServeHTTP, the helpers of package proxy and its sub-packages it calls, their closures), not by function name: a header write is a Set/Add/Del of http.Header on a value that is Request.Header (or a copy / helper parameter passed it), keyed by a constant or by a field of config.Proxy; keys, values and guarding conditions that reach a helper as parameters (setIfAbsent(h, key, value), a bool isTLS) are evaluated per call site. (A1) the authoritative headers (configured client-IP header, configured TLS header) are written with Set, under no condition that depends on a header the client sent (conditions under which the request is not forwarded at all do not count), with a value derived only from RemoteAddr / r.TLS / configuration; the TLS header is Set on the r.TLS != nil edge and Del'd on the other edge or unconditionally in front of the Set (exhaustive); (A2) the default-if-absent headers (X-Real-Ip, X-Forwarded-Proto/-Port/-Host) are written only where Get(sameKey) == \"\" is known and their values derive from the connection (net.SplitHostPort of RemoteAddr) or the request's Host (net.SplitHostPort of Request.Host for the port); (O1) in no function of the region can a store to r.Host (direct or inside a helper) be followed by the derivation of X-Forwarded-Host/-Port/Forwarded (direct or inside a helper): they must describe the host the client asked for, also for host= routes; (X1) every test of the Upgrade header in package proxy compares against the same constant set (==, switch, slices.Contains, a predicate on the value), and the functions that write X-Forwarded-For or produce the ws/wss scheme reach such a test; (X2) the value Set as X-Forwarded-For ends with the peer (last operand of the concatenation / strings.Join(append(prior, peer)) / Sprintf / helper result); (S1) Strict-Transport-Security is written only where r.TLS != nil is known, on the response; (R1) the request-id header is Set from the generator under no client-dependent condition; (P1) nothing in package proxy separates host and port of Request.Host / RemoteAddr with a bare ':' search (IPv6 literals) - net.SplitHostPort is used; (X3) the X-Forwarded-For write and the choice of the raw tunnel (code that hijacks the connection, found by role) are control dependent on the same request header (Upgrade only); (A3) the for= element fabio itself puts into Forwarded (\"for=\"+x, Sprintf(\"for=%s\"), else the whole value written) derives from RemoteAddr and from no client header. Not decided: the textual format of Forwarded and of the port/protocol values (string contents).",
 		Run:     runC08,
 		Trusted: []string{"net/http sets Request.RemoteAddr to the peer's ip:port and Request.TLS iff the connection used TLS", "httputil.ReverseProxy appends the peer address to X-Forwarded-For for non-upgrade requests"},
 		Mutants: []mutant{
@@ -32,17 +32,74 @@ func init() {
 			{Name: "request id kept when the client sent one", File: "proxy/http_proxy.go", Old: "\tif p.Config.RequestID != \"\" {", New: "\tif p.Config.RequestID != \"\" && r.Header.Get(p.Config.RequestID) == \"\" {", Expect: "C08.R1"},
 			{Name: "first-colon port split again", File: "proxy/http_headers.go", Old: "\tif _, port, err := net.SplitHostPort(r.Host); err == nil && port != \"\" {\n\t\treturn port\n\t}", New: "\tif n := strings.Index(r.Host, \":\"); n > 0 && n < len(r.Host)-1 {\n\t\treturn r.Host[n+1:]\n\t}", Expect: "C08.P1"},
 			{Name: "benign: remote ip computed by the caller", File: "proxy/http_headers.go", Old: "\tif r.Header.Get(\"X-Real-Ip\") == \"\" {\n\t\tr.Header.Set(\"X-Real-Ip\", remoteIP)\n\t}", New: "\tif cur := r.Header.Get(\"X-Real-Ip\"); cur == \"\" {\n\t\tr.Header.Set(\"X-Real-Ip\", remoteIP)\n\t}", Expect: ""},
+			// ---- added while hardening against behaviour-preserving refactorings (benign rewrites of shapes not in the corpus, and a break for every rewritten rule)
+			{Name: "benign: TLS header in a helper taking the header map and a bool", File: "proxy/http_headers.go", Old: "\tif cfg.TLSHeader != \"\" {\n\t\tif r.TLS != nil {\n\t\t\tr.Header.Set(cfg.TLSHeader, cfg.TLSHeaderValue)\n\t\t} else {\n\t\t\tr.Header.Del(cfg.TLSHeader)\n\t\t}\n\t}\n\n\treturn nil\n}\n", New: "\tmarkTLS(r.Header, r.TLS != nil, cfg.TLSHeader, cfg.TLSHeaderValue)\n\n\treturn nil\n}\n\nfunc markTLS(h http.Header, secure bool, name, value string) {\n\tswitch {\n\tcase name == \"\":\n\tcase secure:\n\t\th.Set(name, value)\n\tdefault:\n\t\th.Del(name)\n\t}\n}\n", Expect: ""},
+			{Name: "TLS helper told 'secure' from X-Forwarded-Proto", File: "proxy/http_headers.go", Old: "\tif cfg.TLSHeader != \"\" {\n\t\tif r.TLS != nil {\n\t\t\tr.Header.Set(cfg.TLSHeader, cfg.TLSHeaderValue)\n\t\t} else {\n\t\t\tr.Header.Del(cfg.TLSHeader)\n\t\t}\n\t}\n\n\treturn nil\n}\n", New: "\tmarkTLS(r.Header, r.TLS != nil || r.Header.Get(\"X-Forwarded-Proto\") == \"https\", cfg.TLSHeader, cfg.TLSHeaderValue)\n\n\treturn nil\n}\n\nfunc markTLS(h http.Header, secure bool, name, value string) {\n\tswitch {\n\tcase name == \"\":\n\tcase secure:\n\t\th.Set(name, value)\n\tdefault:\n\t\th.Del(name)\n\t}\n}\n", Expect: "C08.A1"},
+			{Name: "benign: TLS header deleted first, Set on the TLS edge", File: "proxy/http_headers.go", Old: "\tif cfg.TLSHeader != \"\" {\n\t\tif r.TLS != nil {\n\t\t\tr.Header.Set(cfg.TLSHeader, cfg.TLSHeaderValue)\n\t\t} else {\n\t\t\tr.Header.Del(cfg.TLSHeader)\n\t\t}\n\t}\n\n\treturn nil\n}\n", New: "\tif cfg.TLSHeader != \"\" {\n\t\tr.Header.Del(cfg.TLSHeader)\n\t\tif r.TLS != nil {\n\t\t\tr.Header.Set(cfg.TLSHeader, cfg.TLSHeaderValue)\n\t\t}\n\t}\n\n\treturn nil\n}\n", Expect: ""},
+			{Name: "TLS header deleted after the Set", File: "proxy/http_headers.go", Old: "\tif cfg.TLSHeader != \"\" {\n\t\tif r.TLS != nil {\n\t\t\tr.Header.Set(cfg.TLSHeader, cfg.TLSHeaderValue)\n\t\t} else {\n\t\t\tr.Header.Del(cfg.TLSHeader)\n\t\t}\n\t}\n\n\treturn nil\n}\n", New: "\tif cfg.TLSHeader != \"\" {\n\t\tif r.TLS != nil {\n\t\t\tr.Header.Set(cfg.TLSHeader, cfg.TLSHeaderValue)\n\t\t}\n\t\tr.Header.Del(cfg.TLSHeader)\n\t}\n\n\treturn nil\n}\n", Expect: "C08.A1"},
+			{Name: "TLS header value taken from the client", File: "proxy/http_headers.go", Old: "r.Header.Set(cfg.TLSHeader, cfg.TLSHeaderValue)", New: "r.Header.Set(cfg.TLSHeader, r.Header.Get(\"X-Forwarded-Proto\"))", Expect: "C08.A1"},
+			{Name: "benign: defaults through a generic setIfAbsent(h, key, value) helper", File: "proxy/http_headers.go", Old: "\tif r.Header.Get(\"X-Real-Ip\") == \"\" {\n\t\tr.Header.Set(\"X-Real-Ip\", remoteIP)\n\t}\n", New: "\tsetIfAbsent(r.Header, \"X-Real-Ip\", remoteIP)\n", Expect: "", More: []repl{{"\tif r.Header.Get(\"X-Forwarded-Port\") == \"\" {\n\t\tr.Header.Set(\"X-Forwarded-Port\", localPort(r))\n\t}\n", "\tsetIfAbsent(r.Header, \"X-Forwarded-Port\", localPort(r))\n"}, {"\tif r.Header.Get(\"X-Forwarded-Host\") == \"\" && r.Host != \"\" {\n\t\tr.Header.Set(\"X-Forwarded-Host\", r.Host)\n\t}\n", "\tif r.Host != \"\" {\n\t\tsetIfAbsent(r.Header, \"X-Forwarded-Host\", r.Host)\n\t}\n"}, {"var tlsver = map[uint16]string{", "func setIfAbsent(h http.Header, key, value string) {\n\tif h.Get(key) != \"\" {\n\t\treturn\n\t}\n\th.Set(key, value)\n}\n\nvar tlsver = map[uint16]string{"}}},
+			{Name: "setIfAbsent helper: X-Forwarded-Host from the upstream URL", File: "proxy/http_headers.go", Old: "\tif r.Header.Get(\"X-Real-Ip\") == \"\" {\n\t\tr.Header.Set(\"X-Real-Ip\", remoteIP)\n\t}\n", New: "\tsetIfAbsent(r.Header, \"X-Real-Ip\", remoteIP)\n", Expect: "C08.A2", More: []repl{{"\tif r.Header.Get(\"X-Forwarded-Port\") == \"\" {\n\t\tr.Header.Set(\"X-Forwarded-Port\", localPort(r))\n\t}\n", "\tsetIfAbsent(r.Header, \"X-Forwarded-Port\", localPort(r))\n"}, {"\tif r.Header.Get(\"X-Forwarded-Host\") == \"\" && r.Host != \"\" {\n\t\tr.Header.Set(\"X-Forwarded-Host\", r.Host)\n\t}\n", "\tif r.Host != \"\" {\n\t\tsetIfAbsent(r.Header, \"X-Forwarded-Host\", r.URL.Host)\n\t}\n"}, {"var tlsver = map[uint16]string{", "func setIfAbsent(h http.Header, key, value string) {\n\tif h.Get(key) != \"\" {\n\t\treturn\n\t}\n\th.Set(key, value)\n}\n\nvar tlsver = map[uint16]string{"}}},
+			{Name: "setIfAbsent helper that overwrites", File: "proxy/http_headers.go", Old: "\tif r.Header.Get(\"X-Real-Ip\") == \"\" {\n\t\tr.Header.Set(\"X-Real-Ip\", remoteIP)\n\t}\n", New: "\tsetIfAbsent(r.Header, \"X-Real-Ip\", remoteIP)\n", Expect: "C08.A2", More: []repl{{"\tif r.Header.Get(\"X-Forwarded-Port\") == \"\" {\n\t\tr.Header.Set(\"X-Forwarded-Port\", localPort(r))\n\t}\n", "\tsetIfAbsent(r.Header, \"X-Forwarded-Port\", localPort(r))\n"}, {"\tif r.Header.Get(\"X-Forwarded-Host\") == \"\" && r.Host != \"\" {\n\t\tr.Header.Set(\"X-Forwarded-Host\", r.Host)\n\t}\n", "\tif r.Host != \"\" {\n\t\tsetIfAbsent(r.Header, \"X-Forwarded-Host\", r.Host)\n\t}\n"}, {"var tlsver = map[uint16]string{", "func setIfAbsent(h http.Header, key, value string) {\n\th.Set(key, value)\n}\n\nvar tlsver = map[uint16]string{"}}},
+			{Name: "setIfAbsent helper tests another header than it writes", File: "proxy/http_headers.go", Old: "\tif r.Header.Get(\"X-Real-Ip\") == \"\" {\n\t\tr.Header.Set(\"X-Real-Ip\", remoteIP)\n\t}\n", New: "\tsetIfAbsent(r.Header, \"X-Real-Ip\", remoteIP)\n", Expect: "C08.A2", More: []repl{{"\tif r.Header.Get(\"X-Forwarded-Port\") == \"\" {\n\t\tr.Header.Set(\"X-Forwarded-Port\", localPort(r))\n\t}\n", "\tsetIfAbsent(r.Header, \"X-Forwarded-Port\", localPort(r))\n"}, {"var tlsver = map[uint16]string{", "func setIfAbsent(h http.Header, key, value string) {\n\tif h.Get(\"X-Forwarded-For\") != \"\" {\n\t\treturn\n\t}\n\th.Set(key, value)\n}\n\nvar tlsver = map[uint16]string{"}}},
+			{Name: "benign: absent test spelled len(Get(k)) == 0 with a guard clause order", File: "proxy/http_headers.go", Old: "\tif r.Header.Get(\"X-Forwarded-Port\") == \"\" {\n\t\tr.Header.Set(\"X-Forwarded-Port\", localPort(r))\n\t}\n", New: "\tif len(r.Header.Get(\"X-Forwarded-Port\")) == 0 {\n\t\tr.Header.Set(\"X-Forwarded-Port\", localPort(r))\n\t}\n", Expect: ""},
+			{Name: "X-Forwarded-Port from the upstream URL", File: "proxy/http_headers.go", Old: "r.Header.Set(\"X-Forwarded-Port\", localPort(r))", New: "r.Header.Set(\"X-Forwarded-Port\", r.URL.Port())", Expect: "C08.A2"},
+			{Name: "benign: localPort renamed", File: "proxy/http_headers.go", Old: "localPort(", New: "portOfRequest(", Expect: "", All: true},
+			{Name: "benign: localPort inlined into a local variable with a guard", File: "proxy/http_headers.go", Old: "\tif r.Header.Get(\"X-Forwarded-Port\") == \"\" {\n\t\tr.Header.Set(\"X-Forwarded-Port\", localPort(r))\n\t}\n", New: "\tif r.Header.Get(\"X-Forwarded-Port\") == \"\" {\n\t\tport := localPort(r)\n\t\tr.Header.Set(\"X-Forwarded-Port\", port)\n\t}\n", Expect: ""},
+			{Name: "benign: Host rewrite extracted into a helper", File: "proxy/http_proxy.go", Old: "\tif t.Host == \"dst\" {\n\t\tr.Host = targetURL.Host\n\t} else if t.Host != \"\" {\n\t\tr.Host = t.Host\n\t}\n", New: "\trewriteHost(r, t, targetURL)\n", Expect: "", More: []repl{{"func key(code int) string {", "func rewriteHost(r *http.Request, t *route.Target, targetURL *url.URL) {\n\tswitch t.Host {\n\tcase \"\":\n\tcase \"dst\":\n\t\tr.Host = targetURL.Host\n\tdefault:\n\t\tr.Host = t.Host\n\t}\n}\n\nfunc key(code int) string {"}}},
+			{Name: "Host rewrite helper called before the headers are derived", File: "proxy/http_proxy.go", Old: "\tif t.Host == \"dst\" {\n\t\tr.Host = targetURL.Host\n\t} else if t.Host != \"\" {\n\t\tr.Host = t.Host\n\t}\n", New: "", Expect: "C08.O1", More: []repl{{"\tif err := addHeaders(r, p.Config, t.StripPath); err != nil {", "\trewriteHost(r, t, targetURL)\n\tif err := addHeaders(r, p.Config, t.StripPath); err != nil {"}, {"func key(code int) string {", "func rewriteHost(r *http.Request, t *route.Target, targetURL *url.URL) {\n\tswitch t.Host {\n\tcase \"\":\n\tcase \"dst\":\n\t\tr.Host = targetURL.Host\n\tdefault:\n\t\tr.Host = t.Host\n\t}\n}\n\nfunc key(code int) string {"}}},
+			{Name: "benign: addHeaders body moved into a differently named function", File: "proxy/http_headers.go", Old: "func addHeaders(r *http.Request, cfg config.Proxy, stripPath string) error {\n\tremoteIP, _, err :=", New: "func addHeaders(r *http.Request, cfg config.Proxy, stripPath string) error {\n\treturn deriveForwarding(r, cfg, stripPath)\n}\n\nfunc deriveForwarding(r *http.Request, cfg config.Proxy, stripPath string) error {\n\tremoteIP, _, err :=", Expect: ""},
+			{Name: "benign: Upgrade test as slices.Contains", File: "proxy/http_headers.go", Old: "return upgrade == \"websocket\" || upgrade == \"Websocket\"", New: "return slices.Contains([]string{\"websocket\", \"Websocket\"}, upgrade)", Expect: "", More: []repl{{"\t\"net/http\"\n\t\"strings\"", "\t\"net/http\"\n\t\"slices\"\n\t\"strings\""}}},
+			{Name: "benign: Upgrade test as a switch", File: "proxy/http_headers.go", Old: "\tupgrade := r.Header.Get(\"Upgrade\")\n\treturn upgrade == \"websocket\" || upgrade == \"Websocket\"", New: "\tswitch r.Header.Get(\"Upgrade\") {\n\tcase \"websocket\", \"Websocket\":\n\t\treturn true\n\t}\n\treturn false", Expect: ""},
+			{Name: "benign: Upgrade test through a predicate on the value", File: "proxy/http_headers.go", Old: "\treturn upgrade == \"websocket\" || upgrade == \"Websocket\"\n}", New: "\treturn isWS(upgrade)\n}\n\nfunc isWS(v string) bool {\n\treturn v == \"websocket\" || v == \"Websocket\"\n}", Expect: ""},
+			{Name: "tunnel decided by a case-insensitive test of its own", File: "proxy/http_proxy.go", Old: "\tcase isWebsocketUpgrade(r):", New: "\tcase strings.EqualFold(r.Header.Get(\"Upgrade\"), \"websocket\"):", Expect: "C08.X1"},
+			{Name: "tunnel accepts a third spelling", File: "proxy/http_proxy.go", Old: "\tcase isWebsocketUpgrade(r):", New: "\tcase r.Header.Get(\"Upgrade\") == \"websocket\" || r.Header.Get(\"Upgrade\") == \"Websocket\" || r.Header.Get(\"Upgrade\") == \"WebSocket\":", Expect: "C08.X1"},
+			{Name: "benign: X-Forwarded-For built with strings.Join(append(prior, peer))", File: "proxy/http_headers.go", Old: "\t\tif len(prior) > 0 {\n\t\t\tclientIP = strings.Join(prior, \", \") + \", \" + clientIP\n\t\t}\n", New: "\t\tif len(prior) > 0 {\n\t\t\tclientIP = strings.Join(append(prior, clientIP), \", \")\n\t\t}\n", Expect: ""},
+			{Name: "peer first in strings.Join(append(...))", File: "proxy/http_headers.go", Old: "\t\tif len(prior) > 0 {\n\t\t\tclientIP = strings.Join(prior, \", \") + \", \" + clientIP\n\t\t}\n", New: "\t\tif len(prior) > 0 {\n\t\t\tclientIP = strings.Join(append([]string{clientIP}, prior...), \", \")\n\t\t}\n", Expect: "C08.X2"},
+			{Name: "benign: X-Forwarded-For value built by a helper", File: "proxy/http_headers.go", Old: "\t\tif len(prior) > 0 {\n\t\t\tclientIP = strings.Join(prior, \", \") + \", \" + clientIP\n\t\t}\n", New: "\t\tclientIP = appendPeer(prior, clientIP)\n", Expect: "", More: []repl{{"var tlsver = map[uint16]string{", "func appendPeer(prior []string, peer string) string {\n\tif len(prior) == 0 {\n\t\treturn peer\n\t}\n\treturn strings.Join(prior, \", \") + \", \" + peer\n}\n\nvar tlsver = map[uint16]string{"}}},
+			{Name: "helper puts the peer first", File: "proxy/http_headers.go", Old: "\t\tif len(prior) > 0 {\n\t\t\tclientIP = strings.Join(prior, \", \") + \", \" + clientIP\n\t\t}\n", New: "\t\tclientIP = appendPeer(prior, clientIP)\n", Expect: "C08.X2", More: []repl{{"var tlsver = map[uint16]string{", "func appendPeer(prior []string, peer string) string {\n\tif len(prior) == 0 {\n\t\treturn peer\n\t}\n\treturn peer + \", \" + strings.Join(prior, \", \")\n}\n\nvar tlsver = map[uint16]string{"}}},
+			{Name: "benign: for= element built with fmt.Sprintf", File: "proxy/http_headers.go", Old: "fwd = \"for=\" + remoteIP + \"; proto=\" + proto", New: "fwd = fmt.Sprintf(\"for=%s; proto=%s\", remoteIP, proto)", Expect: "", More: []repl{{"\t\"errors\"\n\t\"net\"", "\t\"errors\"\n\t\"fmt\"\n\t\"net\""}}},
+			{Name: "Sprintf for= from X-Real-Ip", File: "proxy/http_headers.go", Old: "fwd = \"for=\" + remoteIP + \"; proto=\" + proto", New: "fwd = fmt.Sprintf(\"for=%s; proto=%s\", r.Header.Get(\"X-Real-Ip\"), proto)", Expect: "C08.A3", More: []repl{{"\t\"errors\"\n\t\"net\"", "\t\"errors\"\n\t\"fmt\"\n\t\"net\""}}},
+			{Name: "benign: Forwarded value built by a helper", File: "proxy/http_headers.go", Old: "\tif fwd == \"\" {\n\t\tfwd = \"for=\" + remoteIP + \"; proto=\" + proto\n\t}\n", New: "\tif fwd == \"\" {\n\t\tfwd = forwardedFor(remoteIP, proto)\n\t}\n", Expect: "", More: []repl{{"var tlsver = map[uint16]string{", "func forwardedFor(peer, proto string) string {\n\treturn \"for=\" + peer + \"; proto=\" + proto\n}\n\nvar tlsver = map[uint16]string{"}}},
+			{Name: "Forwarded helper is passed the first X-Forwarded-For entry", File: "proxy/http_headers.go", Old: "\tif fwd == \"\" {\n\t\tfwd = \"for=\" + remoteIP + \"; proto=\" + proto\n\t}\n", New: "\tif fwd == \"\" {\n\t\tfwd = forwardedFor(strings.Split(r.Header.Get(\"X-Forwarded-For\"), \",\")[0], proto)\n\t}\n", Expect: "C08.A3", More: []repl{{"var tlsver = map[uint16]string{", "func forwardedFor(peer, proto string) string {\n\treturn \"for=\" + peer + \"; proto=\" + proto\n}\n\nvar tlsver = map[uint16]string{"}}},
+			{Name: "benign: peer address computed by a helper", File: "proxy/http_headers.go", Old: "\tremoteIP, _, err := net.SplitHostPort(r.RemoteAddr)\n", New: "\tremoteIP, err := peerIP(r)\n", Expect: "", More: []repl{{"var tlsver = map[uint16]string{", "func peerIP(r *http.Request) (string, error) {\n\thost, _, err := net.SplitHostPort(r.RemoteAddr)\n\treturn host, err\n}\n\nvar tlsver = map[uint16]string{"}}},
+			{Name: "benign: client-IP header in a helper with a switch guard", File: "proxy/http_headers.go", Old: "\tif cfg.ClientIPHeader != \"\" &&\n\t\tcfg.ClientIPHeader != \"X-Forwarded-For\" &&\n\t\tcfg.ClientIPHeader != \"X-Real-Ip\" {\n\t\tr.Header.Set(cfg.ClientIPHeader, remoteIP)\n\t}\n", New: "\tsetClientIP(r, cfg.ClientIPHeader, remoteIP)\n", Expect: "", More: []repl{{"var tlsver = map[uint16]string{", "func setClientIP(r *http.Request, name, ip string) {\n\tswitch name {\n\tcase \"\", \"X-Forwarded-For\", \"X-Real-Ip\":\n\t\treturn\n\t}\n\tr.Header.Set(name, ip)\n}\n\nvar tlsver = map[uint16]string{"}}},
+			{Name: "client-IP helper keeps what the client sent", File: "proxy/http_headers.go", Old: "\tif cfg.ClientIPHeader != \"\" &&\n\t\tcfg.ClientIPHeader != \"X-Forwarded-For\" &&\n\t\tcfg.ClientIPHeader != \"X-Real-Ip\" {\n\t\tr.Header.Set(cfg.ClientIPHeader, remoteIP)\n\t}\n", New: "\tsetClientIP(r, cfg.ClientIPHeader, remoteIP)\n", Expect: "C08.A1", More: []repl{{"var tlsver = map[uint16]string{", "func setClientIP(r *http.Request, name, ip string) {\n\tswitch name {\n\tcase \"\", \"X-Forwarded-For\", \"X-Real-Ip\":\n\t\treturn\n\t}\n\tif len(r.Header.Values(name)) > 0 {\n\t\treturn\n\t}\n\tr.Header.Set(name, ip)\n}\n\nvar tlsver = map[uint16]string{"}}},
+			{Name: "client-IP helper is passed the X-Forwarded-For value", File: "proxy/http_headers.go", Old: "\tif cfg.ClientIPHeader != \"\" &&\n\t\tcfg.ClientIPHeader != \"X-Forwarded-For\" &&\n\t\tcfg.ClientIPHeader != \"X-Real-Ip\" {\n\t\tr.Header.Set(cfg.ClientIPHeader, remoteIP)\n\t}\n", New: "\tsetClientIP(r, cfg.ClientIPHeader, r.Header.Get(\"X-Forwarded-For\"))\n", Expect: "C08.A1", More: []repl{{"var tlsver = map[uint16]string{", "func setClientIP(r *http.Request, name, ip string) {\n\tswitch name {\n\tcase \"\", \"X-Forwarded-For\", \"X-Real-Ip\":\n\t\treturn\n\t}\n\tr.Header.Set(name, ip)\n}\n\nvar tlsver = map[uint16]string{"}}},
+			{Name: "benign: request id set by a method with a guard clause", File: "proxy/http_proxy.go", Old: "\tif p.Config.RequestID != \"\" {\n\t\tid := p.UUID\n\t\tif id == nil {\n\t\t\tid = uuid.NewUUID\n\t\t}\n\t\tr.Header.Set(p.Config.RequestID, id())\n\t}\n", New: "\tp.tagRequest(r)\n", Expect: "", More: []repl{{"func key(code int) string {", "func (p *HTTPProxy) tagRequest(r *http.Request) {\n\tname := p.Config.RequestID\n\tif name == \"\" {\n\t\treturn\n\t}\n\tid := p.UUID\n\tif id == nil {\n\t\tid = uuid.NewUUID\n\t}\n\tr.Header.Set(name, id())\n}\n\nfunc key(code int) string {"}}},
+			{Name: "request-id method keeps a client-supplied id", File: "proxy/http_proxy.go", Old: "\tif p.Config.RequestID != \"\" {\n\t\tid := p.UUID\n\t\tif id == nil {\n\t\t\tid = uuid.NewUUID\n\t\t}\n\t\tr.Header.Set(p.Config.RequestID, id())\n\t}\n", New: "\tp.tagRequest(r)\n", Expect: "C08.R1", More: []repl{{"func key(code int) string {", "func (p *HTTPProxy) tagRequest(r *http.Request) {\n\tname := p.Config.RequestID\n\tif name == \"\" || r.Header.Get(name) != \"\" {\n\t\treturn\n\t}\n\tid := p.UUID\n\tif id == nil {\n\t\tid = uuid.NewUUID\n\t}\n\tr.Header.Set(name, id())\n}\n\nfunc key(code int) string {"}}},
+			{Name: "benign: HSTS written by a helper called on the TLS edge", File: "proxy/http_headers.go", Old: "\tif r.TLS != nil && cfg.STSHeader.MaxAge > 0 {\n\t\tsts := \"max-age=\" + i32toa(int32(cfg.STSHeader.MaxAge))\n\t\tif cfg.STSHeader.Subdomains {\n\t\t\tsts += \"; includeSubdomains\"\n\t\t}\n\t\tif cfg.STSHeader.Preload {\n\t\t\tsts += \"; preload\"\n\t\t}\n\t\tw.Header().Set(\"Strict-Transport-Security\", sts)\n\t}\n", New: "\tif r.TLS != nil {\n\t\tsetHSTS(w.Header(), cfg.STSHeader)\n\t}\n", Expect: "", More: []repl{{"var tlsver = map[uint16]string{", "func setHSTS(h http.Header, cfg config.STSHeader) {\n\tif cfg.MaxAge <= 0 {\n\t\treturn\n\t}\n\tsts := \"max-age=\" + i32toa(int32(cfg.MaxAge))\n\tif cfg.Subdomains {\n\t\tsts += \"; includeSubdomains\"\n\t}\n\tif cfg.Preload {\n\t\tsts += \"; preload\"\n\t}\n\th.Set(\"Strict-Transport-Security\", sts)\n}\n\nvar tlsver = map[uint16]string{"}}},
+			{Name: "benign: HSTS helper is passed a bool", File: "proxy/http_headers.go", Old: "\tif r.TLS != nil && cfg.STSHeader.MaxAge > 0 {\n\t\tsts := \"max-age=\" + i32toa(int32(cfg.STSHeader.MaxAge))\n\t\tif cfg.STSHeader.Subdomains {\n\t\t\tsts += \"; includeSubdomains\"\n\t\t}\n\t\tif cfg.STSHeader.Preload {\n\t\t\tsts += \"; preload\"\n\t\t}\n\t\tw.Header().Set(\"Strict-Transport-Security\", sts)\n\t}\n", New: "\tsetHSTS(w.Header(), r.TLS != nil, cfg.STSHeader)\n", Expect: "", More: []repl{{"var tlsver = map[uint16]string{", "func setHSTS(h http.Header, secure bool, cfg config.STSHeader) {\n\tif !secure || cfg.MaxAge <= 0 {\n\t\treturn\n\t}\n\tsts := \"max-age=\" + i32toa(int32(cfg.MaxAge))\n\tif cfg.Subdomains {\n\t\tsts += \"; includeSubdomains\"\n\t}\n\tif cfg.Preload {\n\t\tsts += \"; preload\"\n\t}\n\th.Set(\"Strict-Transport-Security\", sts)\n}\n\nvar tlsver = map[uint16]string{"}}},
+			{Name: "HSTS helper called when the derived scheme is https", File: "proxy/http_headers.go", Old: "\tif r.TLS != nil && cfg.STSHeader.MaxAge > 0 {\n\t\tsts := \"max-age=\" + i32toa(int32(cfg.STSHeader.MaxAge))\n\t\tif cfg.STSHeader.Subdomains {\n\t\t\tsts += \"; includeSubdomains\"\n\t\t}\n\t\tif cfg.STSHeader.Preload {\n\t\t\tsts += \"; preload\"\n\t\t}\n\t\tw.Header().Set(\"Strict-Transport-Security\", sts)\n\t}\n", New: "\tif r.TLS != nil || scheme(r) == \"https\" {\n\t\tsetHSTS(w.Header(), cfg.STSHeader)\n\t}\n", Expect: "C08.S1", More: []repl{{"var tlsver = map[uint16]string{", "func setHSTS(h http.Header, cfg config.STSHeader) {\n\tif cfg.MaxAge <= 0 {\n\t\treturn\n\t}\n\tsts := \"max-age=\" + i32toa(int32(cfg.MaxAge))\n\tif cfg.Subdomains {\n\t\tsts += \"; includeSubdomains\"\n\t}\n\tif cfg.Preload {\n\t\tsts += \"; preload\"\n\t}\n\th.Set(\"Strict-Transport-Security\", sts)\n}\n\nvar tlsver = map[uint16]string{"}}},
+			{Name: "benign: handler selection extracted into a method", File: "proxy/http_proxy.go", Old: "\tvar h http.Handler\n\tswitch {\n\tcase isWebsocketUpgrade(r):\n\t\tr.URL = targetURL\n\t\tif targetURL.Scheme == \"https\" || targetURL.Scheme == \"wss\" {\n\t\t\th = newWSHandler(targetURL.Host, func(network, address string) (net.Conn, error) {\n\t\t\t\treturn tls.Dial(network, address, tr.(*http.Transport).TLSClientConfig)\n\t\t\t}, p.Stats.WSConn)\n\t\t} else {\n\t\t\th = newWSHandler(targetURL.Host, net.Dial, p.Stats.WSConn)\n\t\t}\n\n\tcase accept == \"text/event-stream\":\n\t\t// use the flush interval for SSE (server-sent events)\n\t\t// must be > 0s to be effective\n\t\th = newHTTPProxy(targetURL, tr, p.Config.FlushInterval)\n\n\tdefault:\n\t\th = newHTTPProxy(targetURL, tr, p.Config.GlobalFlushInterval)\n\t}\n", New: "\th := p.handlerFor(r, targetURL, tr, accept)\n", Expect: "", More: []repl{{"func key(code int) string {", "func (p *HTTPProxy) handlerFor(r *http.Request, targetURL *url.URL, tr http.RoundTripper, accept string) http.Handler {\n\tif isWebsocketUpgrade(r) {\n\t\tr.URL = targetURL\n\t\tdial := net.Dial\n\t\tif targetURL.Scheme == \"https\" || targetURL.Scheme == \"wss\" {\n\t\t\tdial = func(network, address string) (net.Conn, error) {\n\t\t\t\treturn tls.Dial(network, address, tr.(*http.Transport).TLSClientConfig)\n\t\t\t}\n\t\t}\n\t\treturn newWSHandler(targetURL.Host, dial, p.Stats.WSConn)\n\t}\n\tif accept == \"text/event-stream\" {\n\t\treturn newHTTPProxy(targetURL, tr, p.Config.FlushInterval)\n\t}\n\treturn newHTTPProxy(targetURL, tr, p.Config.GlobalFlushInterval)\n}\n\nfunc key(code int) string {"}}},
+			{Name: "extracted handler selection tunnels on the derived scheme", File: "proxy/http_proxy.go", Old: "\tvar h http.Handler\n\tswitch {\n\tcase isWebsocketUpgrade(r):\n\t\tr.URL = targetURL\n\t\tif targetURL.Scheme == \"https\" || targetURL.Scheme == \"wss\" {\n\t\t\th = newWSHandler(targetURL.Host, func(network, address string) (net.Conn, error) {\n\t\t\t\treturn tls.Dial(network, address, tr.(*http.Transport).TLSClientConfig)\n\t\t\t}, p.Stats.WSConn)\n\t\t} else {\n\t\t\th = newWSHandler(targetURL.Host, net.Dial, p.Stats.WSConn)\n\t\t}\n\n\tcase accept == \"text/event-stream\":\n\t\t// use the flush interval for SSE (server-sent events)\n\t\t// must be > 0s to be effective\n\t\th = newHTTPProxy(targetURL, tr, p.Config.FlushInterval)\n\n\tdefault:\n\t\th = newHTTPProxy(targetURL, tr, p.Config.GlobalFlushInterval)\n\t}\n", New: "\th := p.handlerFor(r, targetURL, tr, accept)\n", Expect: "C08.X3", More: []repl{{"func key(code int) string {", "func (p *HTTPProxy) handlerFor(r *http.Request, targetURL *url.URL, tr http.RoundTripper, accept string) http.Handler {\n\tif s := scheme(r); s == \"ws\" || s == \"wss\" {\n\t\tr.URL = targetURL\n\t\tdial := net.Dial\n\t\tif targetURL.Scheme == \"https\" || targetURL.Scheme == \"wss\" {\n\t\t\tdial = func(network, address string) (net.Conn, error) {\n\t\t\t\treturn tls.Dial(network, address, tr.(*http.Transport).TLSClientConfig)\n\t\t\t}\n\t\t}\n\t\treturn newWSHandler(targetURL.Host, dial, p.Stats.WSConn)\n\t}\n\tif accept == \"text/event-stream\" {\n\t\treturn newHTTPProxy(targetURL, tr, p.Config.FlushInterval)\n\t}\n\treturn newHTTPProxy(targetURL, tr, p.Config.GlobalFlushInterval)\n}\n\nfunc key(code int) string {"}}},
+			{Name: "benign: websocket tunnel as a handler type instead of a closure", File: "proxy/ws_handler.go", Old: "\treturn http.HandlerFunc(func(w http.ResponseWriter, r *http.Request) {\n\t\tif conn != nil {", New: "\treturn &wsTunnel{host: host, dial: dial, conn: conn}\n}\n\ntype wsTunnel struct {\n\thost string\n\tdial dialFunc\n\tconn gkm.Gauge\n}\n\nfunc (t *wsTunnel) ServeHTTP(w http.ResponseWriter, r *http.Request) {\n\thost, dial, conn := t.host, t.dial, t.conn\n\t{\n\t\tif conn != nil {", Expect: "", More: []repl{{"\t\t\tlog.Printf(\"[INFO] WS error for %s. %s\", r.URL, err)\n\t\t}\n\t})\n}", "\t\t\tlog.Printf(\"[INFO] WS error for %s. %s\", r.URL, err)\n\t\t}\n\t}\n}"}}},
+			{Name: "benign: websocket flag passed to a helper that appends the peer", File: "proxy/http_headers.go", Old: "\tws := isWebsocketUpgrade(r)\n\tif ws {\n\t\tclientIP := remoteIP\n\t\t// If we aren't the first proxy retain prior\n\t\t// X-Forwarded-For information as a comma+space\n\t\t// separated list and fold multiple headers into one.\n\t\tprior, ok := r.Header[\"X-Forwarded-For\"]\n\t\tomit := ok && prior == nil // Issue 38079: nil now means don't populate the header\n\t\tif len(prior) > 0 {\n\t\t\tclientIP = strings.Join(prior, \", \") + \", \" + clientIP\n\t\t}\n\t\tif !omit {\n\t\t\tr.Header.Set(\"X-Forwarded-For\", clientIP)\n\t\t}\n\t}\n\n", New: "\tappendXFF(r.Header, isWebsocketUpgrade(r), remoteIP)\n\n", Expect: "", More: []repl{{"var tlsver = map[uint16]string{", "func appendXFF(h http.Header, ws bool, peer string) {\n\tif !ws {\n\t\treturn\n\t}\n\tprior, ok := h[\"X-Forwarded-For\"]\n\tif ok && prior == nil {\n\t\treturn\n\t}\n\tif len(prior) > 0 {\n\t\tpeer = strings.Join(prior, \", \") + \", \" + peer\n\t}\n\th.Set(\"X-Forwarded-For\", peer)\n}\n\nvar tlsver = map[uint16]string{"}}},
+			{Name: "X-Forwarded-For helper is told 'websocket' from the derived scheme", File: "proxy/http_headers.go", Old: "\tws := isWebsocketUpgrade(r)\n\tif ws {\n\t\tclientIP := remoteIP\n\t\t// If we aren't the first proxy retain prior\n\t\t// X-Forwarded-For information as a comma+space\n\t\t// separated list and fold multiple headers into one.\n\t\tprior, ok := r.Header[\"X-Forwarded-For\"]\n\t\tomit := ok && prior == nil // Issue 38079: nil now means don't populate the header\n\t\tif len(prior) > 0 {\n\t\t\tclientIP = strings.Join(prior, \", \") + \", \" + clientIP\n\t\t}\n\t\tif !omit {\n\t\t\tr.Header.Set(\"X-Forwarded-For\", clientIP)\n\t\t}\n\t}\n\n", New: "\tappendXFF(r.Header, scheme(r) == \"ws\" || scheme(r) == \"wss\", remoteIP)\n\n", Expect: "C08.X3", More: []repl{{"var tlsver = map[uint16]string{", "func appendXFF(h http.Header, ws bool, peer string) {\n\tif !ws {\n\t\treturn\n\t}\n\tprior, ok := h[\"X-Forwarded-For\"]\n\tif ok && prior == nil {\n\t\treturn\n\t}\n\tif len(prior) > 0 {\n\t\tpeer = strings.Join(prior, \", \") + \", \" + peer\n\t}\n\th.Set(\"X-Forwarded-For\", peer)\n}\n\nvar tlsver = map[uint16]string{"}}},
+			{Name: "benign: every constant-key Set through one set(h, key, value) helper (more than 6 callers)", File: "proxy/http_headers.go", Old: "r.Header.Set(\"X-Real-Ip\", remoteIP)", New: "set(r.Header, \"X-Real-Ip\", remoteIP)", Expect: "", More: []repl{{"r.Header.Set(\"X-Forwarded-For\", clientIP)", "set(r.Header, \"X-Forwarded-For\", clientIP)"}, {"r.Header.Set(\"X-Forwarded-Proto\", \"http\")", "set(r.Header, \"X-Forwarded-Proto\", \"http\")"}, {"r.Header.Set(\"X-Forwarded-Proto\", \"https\")", "set(r.Header, \"X-Forwarded-Proto\", \"https\")"}, {"r.Header.Set(\"X-Forwarded-Proto\", proto)", "set(r.Header, \"X-Forwarded-Proto\", proto)"}, {"r.Header.Set(\"X-Forwarded-Port\", localPort(r))", "set(r.Header, \"X-Forwarded-Port\", localPort(r))"}, {"r.Header.Set(\"X-Forwarded-Host\", r.Host)", "set(r.Header, \"X-Forwarded-Host\", r.Host)"}, {"r.Header.Set(\"X-Forwarded-Prefix\", stripPath)", "set(r.Header, \"X-Forwarded-Prefix\", stripPath)"}, {"r.Header.Set(\"Forwarded\", fwd)", "set(r.Header, \"Forwarded\", fwd)"}, {"var tlsver = map[uint16]string{", "func set(h http.Header, key, value string) {\n\th.Set(key, value)\n}\n\nvar tlsver = map[uint16]string{"}}},
+			{Name: "one set() helper: X-Real-Ip written outside its absent test", File: "proxy/http_headers.go", Old: "r.Header.Set(\"X-Real-Ip\", remoteIP)", New: "set(r.Header, \"X-Real-Ip\", remoteIP)", Expect: "C08.A2", More: []repl{{"r.Header.Set(\"X-Forwarded-For\", clientIP)", "set(r.Header, \"X-Forwarded-For\", clientIP)"}, {"r.Header.Set(\"X-Forwarded-Port\", localPort(r))", "set(r.Header, \"X-Forwarded-Port\", localPort(r))"}, {"r.Header.Set(\"X-Forwarded-Host\", r.Host)", "set(r.Header, \"X-Forwarded-Host\", r.Host)"}, {"r.Header.Set(\"X-Forwarded-Prefix\", stripPath)", "set(r.Header, \"X-Forwarded-Prefix\", stripPath)\n\t\tset(r.Header, \"X-Real-Ip\", remoteIP)"}, {"r.Header.Set(\"Forwarded\", fwd)", "set(r.Header, \"Forwarded\", fwd)"}, {"var tlsver = map[uint16]string{", "func set(h http.Header, key, value string) {\n\th.Set(key, value)\n}\n\nvar tlsver = map[uint16]string{"}}},
+			{Name: "benign: TLS header block as guard clauses at the end of addHeaders", File: "proxy/http_headers.go", Old: "\tif cfg.TLSHeader != \"\" {\n\t\tif r.TLS != nil {\n\t\t\tr.Header.Set(cfg.TLSHeader, cfg.TLSHeaderValue)\n\t\t} else {\n\t\t\tr.Header.Del(cfg.TLSHeader)\n\t\t}\n\t}\n\n\treturn nil\n}\n", New: "\tif cfg.TLSHeader == \"\" {\n\t\treturn nil\n\t}\n\tif r.TLS == nil {\n\t\tr.Header.Del(cfg.TLSHeader)\n\t\treturn nil\n\t}\n\tr.Header.Set(cfg.TLSHeader, cfg.TLSHeaderValue)\n\treturn nil\n}\n", Expect: ""},
+			{Name: "TLS guard clauses: Del only when the client sent the header over X-Forwarded-Proto http", File: "proxy/http_headers.go", Old: "\tif cfg.TLSHeader != \"\" {\n\t\tif r.TLS != nil {\n\t\t\tr.Header.Set(cfg.TLSHeader, cfg.TLSHeaderValue)\n\t\t} else {\n\t\t\tr.Header.Del(cfg.TLSHeader)\n\t\t}\n\t}\n\n\treturn nil\n}\n", New: "\tif cfg.TLSHeader == \"\" {\n\t\treturn nil\n\t}\n\tif r.TLS == nil {\n\t\tif r.Header.Get(\"X-Forwarded-Proto\") != \"https\" {\n\t\t\tr.Header.Del(cfg.TLSHeader)\n\t\t}\n\t\treturn nil\n\t}\n\tr.Header.Set(cfg.TLSHeader, cfg.TLSHeaderValue)\n\treturn nil\n}\n", Expect: "C08.A1"},
+			{Name: "benign: header derivation and Host rewrite moved together into a method", File: "proxy/http_proxy.go", Old: "\tif err := addHeaders(r, p.Config, t.StripPath); err != nil {\n\t\thttp.Error(w, \"cannot parse \"+r.RemoteAddr, http.StatusInternalServerError)\n\t\treturn\n\t}\n\n\tif err := addResponseHeaders(w, r, p.Config); err != nil {\n\t\thttp.Error(w, \"cannot add response headers\", http.StatusInternalServerError)\n\t\treturn\n\t}\n\n\t// rewrite the Host header only after the forwarding headers have\n\t// been derived from the host the client asked for\n\tif t.Host == \"dst\" {\n\t\tr.Host = targetURL.Host\n\t} else if t.Host != \"\" {\n\t\tr.Host = t.Host\n\t}\n\n", New: "\tif !p.prepare(w, r, t, targetURL) {\n\t\treturn\n\t}\n\n", Expect: "", More: []repl{{"func key(code int) string {", "func (p *HTTPProxy) prepare(w http.ResponseWriter, r *http.Request, t *route.Target, targetURL *url.URL) bool {\n\tif err := addHeaders(r, p.Config, t.StripPath); err != nil {\n\t\thttp.Error(w, \"cannot parse \"+r.RemoteAddr, http.StatusInternalServerError)\n\t\treturn false\n\t}\n\tif err := addResponseHeaders(w, r, p.Config); err != nil {\n\t\thttp.Error(w, \"cannot add response headers\", http.StatusInternalServerError)\n\t\treturn false\n\t}\n\t// rewrite the Host header only after the forwarding headers have been derived\n\tswitch {\n\tcase t.Host == \"dst\":\n\t\tr.Host = targetURL.Host\n\tcase t.Host != \"\":\n\t\tr.Host = t.Host\n\t}\n\treturn true\n}\n\nfunc key(code int) string {"}}},
+			{Name: "moved together, Host rewritten first", File: "proxy/http_proxy.go", Old: "\tif err := addHeaders(r, p.Config, t.StripPath); err != nil {\n\t\thttp.Error(w, \"cannot parse \"+r.RemoteAddr, http.StatusInternalServerError)\n\t\treturn\n\t}\n\n\tif err := addResponseHeaders(w, r, p.Config); err != nil {\n\t\thttp.Error(w, \"cannot add response headers\", http.StatusInternalServerError)\n\t\treturn\n\t}\n\n\t// rewrite the Host header only after the forwarding headers have\n\t// been derived from the host the client asked for\n\tif t.Host == \"dst\" {\n\t\tr.Host = targetURL.Host\n\t} else if t.Host != \"\" {\n\t\tr.Host = t.Host\n\t}\n\n", New: "\tif !p.prepare(w, r, t, targetURL) {\n\t\treturn\n\t}\n\n", Expect: "C08.O1", More: []repl{{"func key(code int) string {", "func (p *HTTPProxy) prepare(w http.ResponseWriter, r *http.Request, t *route.Target, targetURL *url.URL) bool {\n\tif t.Host != \"\" && t.Host != \"dst\" {\n\t\tr.Host = t.Host\n\t}\n\tif err := addHeaders(r, p.Config, t.StripPath); err != nil {\n\t\thttp.Error(w, \"cannot parse \"+r.RemoteAddr, http.StatusInternalServerError)\n\t\treturn false\n\t}\n\tif err := addResponseHeaders(w, r, p.Config); err != nil {\n\t\thttp.Error(w, \"cannot add response headers\", http.StatusInternalServerError)\n\t\treturn false\n\t}\n\t// rewrite the Host header only after the forwarding headers have been derived\n\tswitch {\n\tcase t.Host == \"dst\":\n\t\tr.Host = targetURL.Host\n\tcase t.Host != \"\":\n\t\tr.Host = t.Host\n\t}\n\treturn true\n}\n\nfunc key(code int) string {"}}},
+			{Name: "tunnel decided by slices.Contains over a longer list", File: "proxy/http_proxy.go", Old: "\tcase isWebsocketUpgrade(r):", New: "\tcase slices.Contains([]string{\"websocket\", \"Websocket\", \"WebSocket\"}, r.Header.Get(\"Upgrade\")):", Expect: "C08.X1", More: []repl{{"\t\"net/url\"\n\t\"strconv\"", "\t\"net/url\"\n\t\"slices\"\n\t\"strconv\""}}},
+			{Name: "benign: forwarded proto mapping through a helper with a map", File: "proxy/http_headers.go", Old: "\t\tswitch proto {\n\t\tcase \"ws\":\n\t\t\tr.Header.Set(\"X-Forwarded-Proto\", \"http\")\n\t\tcase \"wss\":\n\t\t\tr.Header.Set(\"X-Forwarded-Proto\", \"https\")\n\t\tdefault:\n\t\t\tr.Header.Set(\"X-Forwarded-Proto\", proto)\n\t\t}\n", New: "\t\tr.Header.Set(\"X-Forwarded-Proto\", httpProto(proto))\n", Expect: "", More: []repl{{"var tlsver = map[uint16]string{", "var wsToHTTP = map[string]string{\"ws\": \"http\", \"wss\": \"https\"}\n\nfunc httpProto(proto string) string {\n\tif p, ok := wsToHTTP[proto]; ok {\n\t\treturn p\n\t}\n\treturn proto\n}\n\nvar tlsver = map[uint16]string{"}}},
+			{Name: "benign: request header map in a local variable", File: "proxy/http_headers.go", Old: "\tremoteIP, _, err := net.SplitHostPort(r.RemoteAddr)\n", New: "\thdr := r.Header\n\tremoteIP, _, err := net.SplitHostPort(r.RemoteAddr)\n", Expect: "", More: []repl{{"\tif r.Header.Get(\"X-Real-Ip\") == \"\" {\n\t\tr.Header.Set(\"X-Real-Ip\", remoteIP)", "\tif hdr.Get(\"X-Real-Ip\") == \"\" {\n\t\thdr.Set(\"X-Real-Ip\", remoteIP)"}, {"\t\t\tr.Header.Set(cfg.TLSHeader, cfg.TLSHeaderValue)\n\t\t} else {\n\t\t\tr.Header.Del(cfg.TLSHeader)", "\t\t\thdr.Set(cfg.TLSHeader, cfg.TLSHeaderValue)\n\t\t} else {\n\t\t\thdr.Del(cfg.TLSHeader)"}}},
+			{Name: "benign: TLS header cleared by a helper in front of the Set", File: "proxy/http_headers.go", Old: "\tif cfg.TLSHeader != \"\" {\n\t\tif r.TLS != nil {\n\t\t\tr.Header.Set(cfg.TLSHeader, cfg.TLSHeaderValue)\n\t\t} else {\n\t\t\tr.Header.Del(cfg.TLSHeader)\n\t\t}\n\t}\n\n\treturn nil\n}\n", New: "\tif cfg.TLSHeader != \"\" {\n\t\tclearTLSHeader(r, cfg)\n\t\tif r.TLS != nil {\n\t\t\tr.Header.Set(cfg.TLSHeader, cfg.TLSHeaderValue)\n\t\t}\n\t}\n\n\treturn nil\n}\n", Expect: "", More: []repl{{"var tlsver = map[uint16]string{", "func clearTLSHeader(r *http.Request, cfg config.Proxy) {\n\tr.Header.Del(cfg.TLSHeader)\n}\n\nvar tlsver = map[uint16]string{"}}},
+			{Name: "TLS header cleared by a helper after the Set", File: "proxy/http_headers.go", Old: "\tif cfg.TLSHeader != \"\" {\n\t\tif r.TLS != nil {\n\t\t\tr.Header.Set(cfg.TLSHeader, cfg.TLSHeaderValue)\n\t\t} else {\n\t\t\tr.Header.Del(cfg.TLSHeader)\n\t\t}\n\t}\n\n\treturn nil\n}\n", New: "\tif cfg.TLSHeader != \"\" {\n\t\tif r.TLS != nil {\n\t\t\tr.Header.Set(cfg.TLSHeader, cfg.TLSHeaderValue)\n\t\t}\n\t\tclearTLSHeader(r, cfg)\n\t}\n\n\treturn nil\n}\n", Expect: "C08.A1", More: []repl{{"var tlsver = map[uint16]string{", "func clearTLSHeader(r *http.Request, cfg config.Proxy) {\n\tr.Header.Del(cfg.TLSHeader)\n}\n\nvar tlsver = map[uint16]string{"}}},
+			{Name: "benign: Upgrade test through a generic headerIs(h, key, want...) predicate", File: "proxy/http_headers.go", Old: "\tupgrade := r.Header.Get(\"Upgrade\")\n\treturn upgrade == \"websocket\" || upgrade == \"Websocket\"", New: "\treturn headerIs(r.Header, \"Upgrade\", \"websocket\", \"Websocket\")", Expect: "", More: []repl{{"var tlsver = map[uint16]string{", "func headerIs(h http.Header, key string, want ...string) bool {\n\tv := h.Get(key)\n\tfor _, w := range want {\n\t\tif v == w {\n\t\t\treturn true\n\t\t}\n\t}\n\treturn false\n}\n\nvar tlsver = map[uint16]string{"}}},
+			{Name: "generic predicate: scheme detection knows one spelling only", File: "proxy/http_headers.go", Old: "\tws := isWebsocketUpgrade(r)\n\tswitch {", New: "\tws := headerIs(r.Header, \"Upgrade\", \"websocket\")\n\tswitch {", Expect: "C08.X1", More: []repl{{"var tlsver = map[uint16]string{", "func headerIs(h http.Header, key string, want ...string) bool {\n\tv := h.Get(key)\n\tfor _, w := range want {\n\t\tif v == w {\n\t\t\treturn true\n\t\t}\n\t}\n\treturn false\n}\n\nvar tlsver = map[uint16]string{"}}},
 		},
 	})
 }
 
-// dependsOnClientHeader: the condition value derives from a Header.Get / map lookup on the request's headers.
+// dependsOnClientHeader: the value derives from a Header.Get / Values / map lookup on the request's headers.
 func dependsOnClientHeader(v ssa.Value) (string, bool) {
 	key := ""
 	ok := derives(v, func(x ssa.Value) bool {
 		if call, isC := x.(*ssa.Call); isC {
 			n := calleeName(&call.Call)
-			if (n == "(net/http.Header).Get" || n == "(net/http.Header).Values") && isRequestHeader(call.Call.Args[0]) {
+			if (n == "(net/http.Header).Get" || n == "(net/http.Header).Values") && len(call.Call.Args) >= 2 && c08reqHeader(call.Call.Args[0]) {
 				if k, isK := constString(call.Call.Args[1]); isK {
 					key = k
 				} else {
@@ -51,7 +108,7 @@ func dependsOnClientHeader(v ssa.Value) (string, bool) {
 				return true
 			}
 		}
-		if lk, isL := x.(*ssa.Lookup); isL && isRequestHeader(lk.X) {
+		if lk, isL := x.(*ssa.Lookup); isL && c08reqHeader(lk.X) {
 			key, _ = constString(lk.Index)
 			return true
 		}
@@ -60,295 +117,196 @@ func dependsOnClientHeader(v ssa.Value) (string, bool) {
 	return key, ok
 }
 
+// fromRemoteAddr: the value derives from the host part net.SplitHostPort cuts out of Request.RemoteAddr.
 func fromRemoteAddr(v ssa.Value) bool {
 	return derives(v, func(x ssa.Value) bool {
 		call, ok := x.(*ssa.Call)
-		if !ok || calleeName(&call.Call) != "net.SplitHostPort" {
+		if !ok || calleeName(&call.Call) != "net.SplitHostPort" || len(call.Call.Args) < 1 {
 			return false
 		}
-		_, isRA := fieldOf(call.Call.Args[0], "http.Request", "RemoteAddr")
-		return isRA
+		return derives(call.Call.Args[0], func(y ssa.Value) bool {
+			_, isRA := fieldOf(y, "http.Request", "RemoteAddr")
+			return isRA
+		})
+	})
+}
+
+// c08fromRequestHost: the value derives from Request.Host (the host the client asked for).
+func c08fromRequestHost(v ssa.Value) bool {
+	return derives(v, func(x ssa.Value) bool {
+		_, ok := fieldOf(x, "http.Request", "Host")
+		return ok
+	})
+}
+
+// c08portOfRequestHost: the value derives from the port net.SplitHostPort cuts out of Request.Host.
+func c08portOfRequestHost(v ssa.Value) bool {
+	return derives(v, func(x ssa.Value) bool {
+		call, ok := x.(*ssa.Call)
+		return ok && calleeName(&call.Call) == "net.SplitHostPort" && len(call.Call.Args) >= 1 && c08fromRequestHost(call.Call.Args[0])
 	})
 }
 
 func runC08(c *Ctx) {
-	add := c.fn("proxy", "addHeaders")
-	addResp := c.fn("proxy", "addResponseHeaders")
 	serve := c.method("proxy", "HTTPProxy", "ServeHTTP")
-	if !c.need("C08.A1", add, "proxy.addHeaders") || !c.need("C08.S1", addResp, "proxy.addResponseHeaders") || !c.need("C08.O1", serve, "proxy.HTTPProxy.ServeHTTP") {
+	if !c.need("C08.O1", serve, "proxy.HTTPProxy.ServeHTTP") {
 		return
 	}
-	tlsNonNil := func(b *ssa.BasicBlock) (bool, bool) { // (known non-nil, known nil)
-		isTLS := func(v ssa.Value) bool { _, ok := fieldOf(v, "http.Request", "TLS"); return ok }
-		return knownNonNil(b, isTLS), knownNil(b, isTLS)
-	}
-	clientFacts := func(b *ssa.BasicBlock) string {
-		for _, f := range factsAt(b) {
-			if k, ok := dependsOnClientHeader(f.Cond); ok {
-				return k
-			}
-		}
-		return ""
-	}
+	// everything ServeHTTP does to the request before it hands it to the upstream handler: ServeHTTP, the helpers of
+	// package proxy it calls (transitively) and their closures - however the work is cut into functions
+	reg := c08region(c, 6, serve)
+	writes := c08writes(reg)
+	tlsNonNil, tlsNil := c08tlsAtom(true), c08tlsAtom(false)
 
 	// ---- A1 client-IP header
-	nIP, nTLSSet, nTLSDel := 0, 0, 0
-	eachInstr(add, func(i ssa.Instruction) {
-		cc := callCommon(i)
-		if cc == nil || !strings.HasPrefix(calleeName(cc), "(net/http.Header).") || !isRequestHeader(cc.Args[0]) || len(cc.Args) < 2 {
-			return
+	nIP := 0
+	for _, w := range writes {
+		if w.key != (c08key{"cfg", "ClientIPHeader"}) {
+			continue
 		}
-		m := strings.TrimPrefix(calleeName(cc), "(net/http.Header).")
-		if _, isIP := fieldOf(cc.Args[1], "config.Proxy", "ClientIPHeader"); isIP && m != "Get" {
-			nIP++
-			k := clientFacts(i.Block())
-			okVal := m == "Set" && len(cc.Args) == 3 && fromRemoteAddr(cc.Args[2])
-			if okVal {
-				if _, dep := dependsOnClientHeader(cc.Args[2]); dep {
-					okVal = false
+		nIP++
+		val, vctx := w.val()
+		okVal := w.m == "Set" && val != nil && fromRemoteAddr(val)
+		if okVal {
+			if _, dep := c08clientDep(val, vctx); dep {
+				okVal = false
+			}
+		}
+		k := c08clientFacts(w.instr.Block(), w.ctx)
+		c.check("C08.A1", w.where()+"|client-IP header is Set to the peer address", w.instr.Pos(), okVal,
+			"the configured client-IP header is authoritative: it must be overwritten (Set, not Add) with the address taken from RemoteAddr, never with anything the client sent")
+		c.check("C08.A1", w.where()+"|client-IP header written whatever the client sent", w.instr.Pos(), k == "",
+			"the write depends on the client's "+k+" header: a client that sends the header itself keeps its forged value")
+	}
+	c.atLeast("C08.A1", "writes of the configured client-IP header", nIP, 1)
+
+	// ---- A1 TLS header
+	var tlsW []*c08write
+	for _, w := range writes {
+		if w.key == (c08key{"cfg", "TLSHeader"}) {
+			tlsW = append(tlsW, w)
+		}
+	}
+	nTLSSet, nTLSDel := 0, 0
+	for _, w := range tlsW {
+		nn := c08known(w.instr.Block(), w.ctx, tlsNonNil, 0)
+		nl := c08known(w.instr.Block(), w.ctx, tlsNil, 0)
+		k := c08clientFacts(w.instr.Block(), w.ctx)
+		switch w.m {
+		case "Set":
+			val, vctx := w.val()
+			isVal := false
+			if f, ok := c08cfgField(val); ok && f == "TLSHeaderValue" {
+				isVal = true
+			} else if val != nil && derives(val, func(x ssa.Value) bool { f, ok := c08cfgField(x); return ok && f == "TLSHeaderValue" }) {
+				_, dep := c08clientDep(val, vctx)
+				isVal = !dep
+			}
+			ok := nn && isVal && k == ""
+			if ok {
+				nTLSSet++
+			}
+			c.check("C08.A1", w.where()+"|TLS header Set exactly on TLS connections", w.instr.Pos(), ok,
+				"the configured TLS header must be Set to the configured value on the r.TLS != nil edge, whatever the client sent")
+		case "Del":
+			// on the r.TLS == nil edge, or unconditionally in front of the Set of the TLS edge (Del; if TLS { Set })
+			beforeSet := false
+			for _, s := range tlsW {
+				if s.m != "Set" {
+					continue
+				}
+				for _, pd := range w.chain() {
+					for _, ps := range s.chain() {
+						if pd != ps && pd.Parent() == ps.Parent() && dominatesInstr(pd, ps) && !pathAvoiding(ps, pd, nil) {
+							beforeSet = true
+						}
+					}
 				}
 			}
-			c.check("C08.A1", "proxy.addHeaders|client-IP header is Set to the peer address", i.Pos(), m == "Set" && okVal,
-				"the configured client-IP header is authoritative: it must be overwritten (Set, not Add) with the address taken from RemoteAddr, never with anything the client sent")
-			c.check("C08.A1", "proxy.addHeaders|client-IP header written whatever the client sent", i.Pos(), k == "",
-				"the write depends on the client's "+k+" header: a client that sends the header itself keeps its forged value")
-		}
-		if _, isTLS := fieldOf(cc.Args[1], "config.Proxy", "TLSHeader"); isTLS && m != "Get" {
-			nn, nl := tlsNonNil(i.Block())
-			k := clientFacts(i.Block())
-			switch m {
-			case "Set":
-				nTLSSet++
-				_, isVal := fieldOf(cc.Args[2], "config.Proxy", "TLSHeaderValue")
-				c.check("C08.A1", "proxy.addHeaders|TLS header Set exactly on TLS connections", i.Pos(), nn && isVal && k == "",
-					"the configured TLS header must be Set to the configured value on the r.TLS != nil edge, whatever the client sent")
-			case "Del":
+			ok := !nn && k == "" && (nl || beforeSet)
+			if ok {
 				nTLSDel++
-				c.check("C08.A1", "proxy.addHeaders|TLS header removed on plain connections", i.Pos(), nl && k == "",
-					"on a plain connection a client-supplied copy of the TLS header must be deleted (r.TLS == nil edge)")
-			default:
-				c.check("C08.A1", "proxy.addHeaders|TLS header "+m, i.Pos(), false, "the TLS header may only be Set or Del'd")
 			}
+			c.check("C08.A1", w.where()+"|TLS header removed on plain connections", w.instr.Pos(), ok,
+				"on a plain connection a client-supplied copy of the TLS header must be deleted (r.TLS == nil edge, or before the Set of the TLS edge), whatever the client sent")
+		default:
+			c.check("C08.A1", w.where()+"|TLS header "+w.m, w.instr.Pos(), false, "the TLS header may only be Set or Del'd")
 		}
-	})
-	c.atLeast("C08.A1", "writes of the configured client-IP header", nIP, 1)
-	c.check("C08.A1", "proxy.addHeaders|TLS header exhaustive (Set on TLS, Del otherwise)", add.Pos(), nTLSSet >= 1 && nTLSDel >= 1,
-		"both edges are needed: Set when the connection used TLS, Del when it did not; without the Del a client on a plain connection can claim TLS")
+	}
+	c.check("C08.A1", "proxy|TLS header exhaustive (Set on TLS, Del otherwise)", serve.Pos(), nTLSSet >= 1 && nTLSDel >= 1,
+		"both edges are needed: Header.Set when the connection used TLS, Header.Del when it did not; without the Del a client on a plain connection can claim TLS")
 
 	// ---- A2 default-if-absent
 	defaults := map[string]func(v ssa.Value) bool{
 		"X-Real-Ip":         fromRemoteAddr,
 		"X-Forwarded-Proto": func(v ssa.Value) bool { return true }, // protocol text: value semantics (N)
-		"X-Forwarded-Port": func(v ssa.Value) bool {
-			return derives(v, func(x ssa.Value) bool {
-				call, ok := x.(*ssa.Call)
-				return ok && call.Call.StaticCallee() != nil && call.Call.StaticCallee().Name() == "localPort"
-			})
-		},
-		"X-Forwarded-Host": func(v ssa.Value) bool { _, ok := fieldOf(v, "http.Request", "Host"); return ok },
+		"X-Forwarded-Port":  c08portOfRequestHost,
+		"X-Forwarded-Host":  c08fromRequestHost,
 	}
 	seenDefault := map[string]bool{}
-	eachInstr(add, func(i ssa.Instruction) {
-		for _, m := range []string{"Set", "Add"} {
-			k, cc, ok := headerCall(i, m)
-			if !ok || !isRequestHeader(cc.Args[0]) {
-				continue
-			}
-			valOK, isDefault := defaults[k]
-			if !isDefault {
-				continue
-			}
-			seenDefault[k] = true
-			// guarded by Get(k) == ""
-			guard := false
-			for _, f := range factsAt(i.Block()) {
-				b, isB := f.Cond.(*ssa.BinOp)
-				if !isB || (b.Op != token.EQL && b.Op != token.NEQ) {
-					continue
-				}
-				if s, isS := constString(b.Y); !isS || s != "" {
-					continue
-				}
-				if call, isC := b.X.(*ssa.Call); isC {
-					if gk, gcc, isG := headerCall(call, "Get"); isG && gk == k && isRequestHeader(gcc.Args[0]) && (b.Op == token.EQL) == f.Truth {
-						guard = true
-					}
-				}
-			}
-			c.check("C08.A2", "proxy.addHeaders|"+k+" supplied only when absent", i.Pos(), guard && m == "Set",
-				k+" is a default: it must be Set only on the Get(\""+k+"\") == \"\" edge so that a value from a previous proxy is kept")
-			c.check("C08.A2", "proxy.addHeaders|"+k+" describes the client's connection/request", i.Pos(), valOK(cc.Args[2]),
-				k+" must derive from the connection or from the Host the client asked for, not from the upstream URL or another header")
+	for _, w := range writes {
+		if w.key.kind != "const" || w.m == "Del" {
+			continue
 		}
-	})
-	for k := range defaults {
+		k := w.key.name
+		valOK, isDefault := defaults[k]
+		if !isDefault {
+			continue
+		}
+		seenDefault[k] = true
+		guard := c08known(w.instr.Block(), w.ctx, c08absentAtom(w.key, w.cc.Args[1], w.ctx), 0)
+		c.check("C08.A2", w.where()+"|"+k+" supplied only when absent", w.instr.Pos(), guard && w.m == "Set",
+			k+" is a default: it must be Set only on the Get(\""+k+"\") == \"\" edge so that a value from a previous proxy is kept")
+		val, vctx := w.val()
+		okVal := val != nil && valOK(val)
+		if okVal && k != "X-Forwarded-Proto" {
+			if _, dep := c08clientDep(val, vctx); dep {
+				okVal = false
+			}
+		}
+		c.check("C08.A2", w.where()+"|"+k+" describes the client's connection/request", w.instr.Pos(), okVal,
+			k+" must derive from the connection or from the Host the client asked for, not from the upstream URL or another header")
+	}
+	for _, k := range []string{"X-Real-Ip", "X-Forwarded-Proto", "X-Forwarded-Port", "X-Forwarded-Host"} {
 		if !seenDefault[k] {
-			c.check("C08.A2", "proxy.addHeaders|"+k+" supplied only when absent", add.Pos(), false, k+" is no longer supplied")
+			c.check("C08.A2", "proxy|"+k+" supplied only when absent", serve.Pos(), false, k+" is no longer supplied")
 		}
 	}
 
-	// ---- O1
-	var addCalls []ssa.Instruction
-	eachInstr(serve, func(i ssa.Instruction) {
-		if staticCalleeIs(i, add) {
-			addCalls = append(addCalls, i)
-		}
-	})
-	c.atLeast("C08.O1", "addHeaders calls in ServeHTTP", len(addCalls), 1)
-	nHost := 0
-	eachInstr(serve, func(i ssa.Instruction) {
-		st, ok := i.(*ssa.Store)
-		if !ok {
-			return
-		}
-		if _, isHost := fieldOf(st.Addr, "http.Request", "Host"); !isHost {
-			return
-		}
-		nHost++
-		bad := false
-		for _, a := range addCalls {
-			if pathAvoiding(st, a, nil) {
-				bad = true
-			}
-		}
-		c.check("C08.O1", "proxy.(*HTTPProxy).ServeHTTP|r.Host rewritten only after the forwarding headers are derived", st.Pos(), !bad,
-			"a store to r.Host reaches addHeaders: for routes with the host option X-Forwarded-Host, X-Forwarded-Port and Forwarded then describe the upstream, not the host the client asked for")
-	})
-	c.atLeast("C08.O1", "stores to r.Host in ServeHTTP", nHost, 1)
-
-	// ---- X1 sibling agreement on the Upgrade header
-	sp := c.spkg("proxy")
-	type site struct {
-		f    *ssa.Function
-		pos  token.Pos
-		cset string
-	}
-	var sites []site
-	for _, f := range c.AllFns {
-		if rootPkg(f) != sp {
-			continue
-		}
-		eachInstr(f, func(i ssa.Instruction) {
-			call, ok := i.(*ssa.Call)
-			if !ok {
-				return
-			}
-			k, cc, isG := headerCall(call, "Get")
-			if !isG || k != "Upgrade" || !isRequestHeader(cc.Args[0]) {
-				return
-			}
-			var consts []string
-			var walk func(v ssa.Value, d int)
-			seen := map[ssa.Value]bool{}
-			walk = func(v ssa.Value, d int) {
-				if seen[v] || d > 4 {
-					return
-				}
-				seen[v] = true
-				refs := v.Referrers()
-				if refs == nil {
-					return
-				}
-				for _, r := range *refs {
-					switch x := r.(type) {
-					case *ssa.BinOp:
-						if x.Op == token.EQL || x.Op == token.NEQ {
-							if s, ok := constString(x.Y); ok {
-								consts = append(consts, s)
-							}
-							if s, ok := constString(x.X); ok {
-								consts = append(consts, s)
-							}
-						}
-					case *ssa.Call:
-						n := calleeName(&x.Call)
-						if n == "strings.EqualFold" {
-							for _, a := range x.Call.Args {
-								if s, ok := constString(a); ok {
-									consts = append(consts, "fold:"+strings.ToLower(s))
-								}
-							}
-						} else if n == "strings.ToLower" {
-							walk(x, d+1)
-						}
-					case *ssa.Phi:
-						walk(x, d+1)
-					}
-				}
-			}
-			walk(call, 0)
-			sort.Strings(consts)
-			sites = append(sites, site{f, call.Pos(), strings.Join(consts, "|")})
-		})
-	}
-	c.atLeast("C08.X1", "tests of the Upgrade header in package proxy", len(sites), 1)
-	// call sites of single-predicate functions count as uses
-	if len(sites) > 0 {
-		ref := sites[0].cset
-		for _, s := range sites {
-			c.check("C08.X1", fnKey(s.f)+"|Upgrade header tested against the common constant set", s.pos, s.cset == ref && s.cset != "",
-				"tests of the Upgrade header disagree ("+s.cset+" vs "+ref+"): a spelling accepted for the websocket tunnel but not by addHeaders/scheme is tunnelled without the peer being appended to X-Forwarded-For")
-		}
-	}
-	// the websocket decisions in ServeHTTP, addHeaders and scheme all go through these sites' functions
-	usesWS := 0
-	for _, fn := range []*ssa.Function{serve, add, c.fn("proxy", "scheme")} {
-		if fn == nil {
-			continue
-		}
-		reach := c.reach(fn)
-		for _, s := range sites {
-			if reach[s.f] {
-				usesWS++
-				break
-			}
-		}
-	}
-	c.check("C08.X1", "package proxy|ServeHTTP, addHeaders and scheme all decide on the Upgrade header", serve.Pos(), usesWS == 3, "the tunnel decision, the X-Forwarded-For handling and the scheme detection must all look at the Upgrade header")
-
-	runC08X3(c)
-	runC08A3(c, add)
+	runC08O1(c, serve, reg, writes)
+	xffDeps := runC08X1(c, serve, reg, writes)
+	runC08X3(c, serve, reg, xffDeps)
+	runC08A3(c, reg, writes)
 
 	// ---- X2
 	nXFF := 0
-	eachInstr(add, func(i ssa.Instruction) {
-		k, cc, ok := headerCall(i, "Set")
-		if !ok || k != "X-Forwarded-For" || !isRequestHeader(cc.Args[0]) {
-			return
+	for _, w := range writes {
+		if w.key != (c08key{"const", "X-Forwarded-For"}) || w.m == "Del" {
+			continue
 		}
 		nXFF++
-		// every merged definition of the value ends with the peer address
-		okLast := true
-		for _, d := range defsOf(cc.Args[2]) {
-			right := d.Val
-			for {
-				b, isB := right.(*ssa.BinOp)
-				if !isB || b.Op != token.ADD {
-					break
-				}
-				right = b.Y
-			}
-			// right may itself be a phi of (remoteIP) — follow one level
-			if !fromRemoteAddr(right) {
+		val, vctx := w.val()
+		okLast := w.m == "Set" && val != nil
+		if okLast {
+			tails := c08tails(val, vctx, 0, map[ssa.Value]bool{})
+			if len(tails) == 0 {
 				okLast = false
 			}
-			if ph, isPhi := right.(*ssa.Phi); isPhi {
-				for _, e := range ph.Edges {
-					if !fromRemoteAddr(e) {
-						okLast = false
-					}
+			for _, t := range tails {
+				if t == nil || !fromRemoteAddr(t) {
+					okLast = false
 				}
 			}
 		}
-		c.check("C08.X2", "proxy.addHeaders|websocket X-Forwarded-For ends with the peer address", i.Pos(), okLast,
+		c.check("C08.X2", w.where()+"|websocket X-Forwarded-For ends with the peer address", w.instr.Pos(), okLast,
 			"on the websocket edge X-Forwarded-For must be prior + \", \" + <peer from RemoteAddr> with the peer as the last element")
-	})
-	c.atLeast("C08.X2", "X-Forwarded-For writes in addHeaders", nXFF, 1)
+	}
+	c.atLeast("C08.X2", "X-Forwarded-For writes on the request", nXFF, 1)
 
 	// ---- S1
 	nSTS := 0
 	for _, f := range c.AllFns {
-		if rootPkg(f) != sp {
+		if !c08family(c, f) {
 			continue
 		}
 		eachInstr(f, func(i ssa.Instruction) {
@@ -358,8 +316,8 @@ func runC08(c *Ctx) {
 					continue
 				}
 				nSTS++
-				nn, _ := tlsNonNil(i.Block())
-				onResp := !isRequestHeader(cc.Args[0])
+				nn := c08known(i.Block(), nil, tlsNonNil, 0)
+				onResp := !c08reqHeader(cc.Args[0])
 				c.check("C08.S1", fnKey(f)+"|HSTS only on TLS connections, on the response", i.Pos(), nn && onResp,
 					"Strict-Transport-Security must be written to the response only on the r.TLS != nil edge (RFC 6797: never over plain HTTP)")
 			}
@@ -369,27 +327,23 @@ func runC08(c *Ctx) {
 
 	// ---- R1
 	nRID := 0
-	eachInstr(serve, func(i ssa.Instruction) {
-		cc := callCommon(i)
-		if cc == nil || !strings.HasPrefix(calleeName(cc), "(net/http.Header).") || len(cc.Args) < 3 {
-			return
-		}
-		if _, isRID := fieldOf(cc.Args[1], "config.Proxy", "RequestID"); !isRID {
-			return
+	for _, w := range writes {
+		if w.key != (c08key{"cfg", "RequestID"}) {
+			continue
 		}
 		nRID++
-		m := strings.TrimPrefix(calleeName(cc), "(net/http.Header).")
-		k := clientFacts(i.Block())
-		_, valDep := dependsOnClientHeader(cc.Args[2])
-		c.check("C08.R1", "proxy.(*HTTPProxy).ServeHTTP|request id Set from the generator", i.Pos(), m == "Set" && k == "" && !valDep,
+		k := c08clientFacts(w.instr.Block(), w.ctx)
+		val, vctx := w.val()
+		_, valDep := c08clientDep(val, vctx)
+		c.check("C08.R1", w.where()+"|request id Set from the generator", w.instr.Pos(), w.m == "Set" && k == "" && !valDep,
 			"when a request-id header is configured it must be Set unconditionally from the id generator; keeping a client-supplied id lets clients forge correlation ids")
-	})
+	}
 	c.atLeast("C08.R1", "request-id header writes", nRID, 1)
 
 	// ---- P1
 	nSplit := 0
 	for _, f := range c.AllFns {
-		if rootPkg(f) != sp {
+		if !c08family(c, f) {
 			continue
 		}
 		eachInstr(f, func(i ssa.Instruction) {
@@ -427,33 +381,557 @@ func runC08(c *Ctx) {
 			}
 		})
 	}
-	c.atLeast("C08.P1", "host/port separations of Request.Host/RemoteAddr in package proxy", nSplit, 2)
+	// one is enough: the two separations (peer address, local port) may share one helper
+	c.atLeast("C08.P1", "host/port separations of Request.Host/RemoteAddr in package proxy", nSplit, 1)
+}
+
+// runC08O1: no store to Request.Host can be followed by the derivation of the forwarding headers that describe the
+// host the client asked for. The two landmarks are found by role anywhere in ServeHTTP's region; they are ordered in
+// every function in which both occur (directly or inside a helper that is called there).
+func runC08O1(c *Ctx, serve *ssa.Function, reg []*ssa.Function, writes []*c08write) {
+	derive := map[ssa.Instruction]bool{}
+	for _, w := range writes {
+		if w.key.kind == "const" && w.m != "Del" && (w.key.name == "X-Forwarded-Host" || w.key.name == "X-Forwarded-Port" || w.key.name == "Forwarded") {
+			derive[w.outer()] = true
+		}
+	}
+	isD := func(i ssa.Instruction) bool { return derive[i] }
+	isH := func(i ssa.Instruction) bool {
+		st, ok := i.(*ssa.Store)
+		if !ok {
+			return false
+		}
+		_, isHost := fieldOf(st.Addr, "http.Request", "Host")
+		return isHost
+	}
+	mayD, mayH := liftMay(isD), liftMay(isH)
+	nHost, nMeet := 0, 0
+	for _, f := range reg {
+		var hs, ds []ssa.Instruction
+		eachInstr(f, func(i ssa.Instruction) {
+			if _, isGo := i.(*ssa.Go); isGo {
+				return
+			}
+			if isH(i) {
+				nHost++
+			}
+			if mayH(i) {
+				hs = append(hs, i)
+			}
+			if mayD(i) {
+				ds = append(ds, i)
+			}
+		})
+		if len(hs) == 0 || len(ds) == 0 {
+			continue
+		}
+		for _, h := range hs {
+			bad, met := false, false
+			for _, d := range ds {
+				if d == h {
+					continue // one helper does both: ordered inside that helper
+				}
+				met = true
+				if pathAvoiding(h, d, nil) {
+					bad = true
+				}
+			}
+			if !met {
+				continue
+			}
+			nMeet++
+			c.check("C08.O1", fnKey(f)+"|r.Host rewritten only after the forwarding headers are derived", h.Pos(), !bad,
+				"a store to r.Host reaches the derivation of the forwarding headers: for routes with the host option X-Forwarded-Host, X-Forwarded-Port and Forwarded then describe the upstream, not the host the client asked for")
+		}
+	}
+	c.atLeast("C08.O1", "writes of X-Forwarded-Host/-Port/Forwarded reachable from ServeHTTP", len(derive), 1)
+	c.atLeast("C08.O1", "stores to r.Host reachable from ServeHTTP", nHost, 1)
+	c.atLeast("C08.O1", "functions in which the r.Host rewrite and the header derivation can be ordered", nMeet, 1)
+}
+
+// c08upgradeConsts: the constant set a value read from the Upgrade header is compared against.
+func c08upgradeConsts(call *ssa.Call, ctx c08ctx) string {
+	var consts []string
+	// an operand of a comparison: a constant, or a helper parameter that is passed one in this context
+	constOf := func(v ssa.Value) (string, bool) {
+		r, _ := c08arg(v, ctx)
+		return constString(r)
+	}
+	// an operand that is an element of a list (for _, w := range want { v == w }): the list's constants
+	elemsOf := func(v ssa.Value) []string {
+		u, ok := v.(*ssa.UnOp)
+		if !ok || u.Op != token.MUL {
+			return nil
+		}
+		ia, ok := u.X.(*ssa.IndexAddr)
+		if !ok {
+			return nil
+		}
+		list, _ := c08arg(ia.X, ctx)
+		var out []string
+		for _, e := range c08sliceElems(list) {
+			if s, ok := constString(e); ok {
+				out = append(out, s)
+			} else {
+				out = append(out, "?")
+			}
+		}
+		return out
+	}
+	seen := map[ssa.Value]bool{}
+	var walk func(v ssa.Value, d int)
+	walk = func(v ssa.Value, d int) {
+		if seen[v] || d > 6 {
+			return
+		}
+		seen[v] = true
+		refs := v.Referrers()
+		if refs == nil {
+			return
+		}
+		for _, r := range *refs {
+			switch x := r.(type) {
+			case *ssa.BinOp:
+				if x.Op == token.EQL || x.Op == token.NEQ {
+					for _, o := range []ssa.Value{x.X, x.Y} {
+						if o == v {
+							continue
+						}
+						if s, ok := constOf(o); ok {
+							consts = append(consts, s)
+						}
+						consts = append(consts, elemsOf(o)...)
+					}
+				}
+			case *ssa.Call:
+				n := typeArgs.ReplaceAllString(calleeName(&x.Call), "")
+				switch {
+				case n == "strings.EqualFold":
+					for _, a := range x.Call.Args {
+						if s, ok := constOf(a); ok && a != v {
+							consts = append(consts, "fold:"+strings.ToLower(s))
+						}
+					}
+				case n == "strings.ToLower" || n == "strings.TrimSpace":
+					walk(x, d+1)
+				case n == "slices.Contains" && len(x.Call.Args) == 2 && x.Call.Args[1] == v:
+					// the hand-written a == x || a == y as a list membership test
+					list, _ := c08arg(x.Call.Args[0], ctx)
+					for _, e := range c08sliceElems(list) {
+						if s, ok := constString(e); ok {
+							consts = append(consts, s)
+						} else {
+							consts = append(consts, "?")
+						}
+					}
+				default:
+					// a repository predicate on the header's value: look at what it does with its parameter
+					if sc := x.Call.StaticCallee(); sc != nil && isRepoFn(sc) && len(sc.Blocks) > 0 {
+						for k, a := range x.Call.Args {
+							if a == v && k < len(sc.Params) {
+								walk(sc.Params[k], d+1)
+							}
+						}
+					}
+				}
+			case *ssa.Phi:
+				walk(x, d+1)
+			case *ssa.ChangeType:
+				walk(x, d+1)
+			case *ssa.Convert:
+				walk(x, d+1)
+			}
+		}
+	}
+	walk(call, 0)
+	sort.Strings(consts)
+	// a == x || a == x twice is the same set
+	var uniq []string
+	for k, s := range consts {
+		if k == 0 || s != consts[k-1] {
+			uniq = append(uniq, s)
+		}
+	}
+	return strings.Join(uniq, "|")
+}
+
+// c08sliceElems: the elements of a slice literal (nil if the slice is not a literal built here or in a package variable).
+func c08sliceElems(v ssa.Value) []ssa.Value {
+	switch x := v.(type) {
+	case *ssa.Slice:
+		a, ok := x.X.(*ssa.Alloc)
+		if !ok || a.Referrers() == nil {
+			return nil
+		}
+		var out []ssa.Value
+		for _, r := range *a.Referrers() {
+			ia, ok := r.(*ssa.IndexAddr)
+			if !ok || ia.Referrers() == nil {
+				continue
+			}
+			for _, r2 := range *ia.Referrers() {
+				if st, ok := r2.(*ssa.Store); ok && st.Addr == ia {
+					out = append(out, st.Val)
+				}
+			}
+		}
+		return out
+	case *ssa.UnOp:
+		// a package-level list: the stores of the package initialiser
+		g, ok := x.X.(*ssa.Global)
+		if x.Op != token.MUL || !ok || g.Pkg == nil {
+			return nil
+		}
+		init := g.Pkg.Func("init")
+		if init == nil {
+			return nil
+		}
+		var out []ssa.Value
+		eachInstr(init, func(i ssa.Instruction) {
+			if st, ok := i.(*ssa.Store); ok && st.Addr == g {
+				out = append(out, c08sliceElems(st.Val)...)
+			}
+		})
+		return out
+	}
+	return nil
+}
+
+// runC08X1: sibling agreement on the Upgrade header. Returns the client headers the X-Forwarded-For write depends on.
+func runC08X1(c *Ctx, serve *ssa.Function, reg []*ssa.Function, writes []*c08write) map[string]bool {
+	type site struct {
+		f    *ssa.Function
+		pos  token.Pos
+		cset string
+	}
+	var sites []site
+	for _, f := range c.AllFns {
+		if !c08family(c, f) {
+			continue
+		}
+		eachInstr(f, func(i ssa.Instruction) {
+			call, ok := i.(*ssa.Call)
+			if !ok {
+				return
+			}
+			cc := &call.Call
+			if calleeName(cc) != "(net/http.Header).Get" || len(cc.Args) < 2 || !c08reqHeader(cc.Args[0]) {
+				return
+			}
+			// the key is the constant, or a parameter of a generic predicate headerIs(h, key, want...) - one site per caller
+			for _, ka := range c08keys(cc.Args[1], nil, 0) {
+				if ka.key == (c08key{"const", "Upgrade"}) {
+					sites = append(sites, site{f, call.Pos(), c08upgradeConsts(call, ka.ctx)})
+				}
+			}
+		})
+	}
+	c.atLeast("C08.X1", "tests of the Upgrade header in package proxy", len(sites), 1)
+	if len(sites) > 0 {
+		ref := sites[0].cset
+		for _, s := range sites {
+			c.check("C08.X1", fnKey(s.f)+"|Upgrade header tested against the common constant set", s.pos, s.cset == ref && s.cset != "",
+				"tests of the Upgrade header disagree ("+s.cset+" vs "+ref+"): a spelling accepted for the websocket tunnel but not by addHeaders/scheme is tunnelled without the peer being appended to X-Forwarded-For")
+		}
+	}
+	// the three websocket decisions - tunnel (ServeHTTP), X-Forwarded-For, scheme detection - all go through these
+	// sites' functions. The deciders are found by role: the function that writes X-Forwarded-For, the functions that
+	// produce the "ws"/"wss" scheme.
+	reachesSite := func(fn *ssa.Function) bool {
+		reach := c.reach(fn)
+		for _, s := range sites {
+			if reach[s.f] {
+				return true
+			}
+		}
+		return false
+	}
+	var xffDeps map[string]bool
+	okAll, nXFF := reachesSite(serve), 0
+	for _, w := range writes {
+		if w.key != (c08key{"const", "X-Forwarded-For"}) || w.m == "Del" {
+			continue
+		}
+		nXFF++
+		if xffDeps == nil {
+			xffDeps = map[string]bool{}
+		}
+		for h := range c08factDeps(w.instr.Block(), w.ctx) {
+			xffDeps[h] = true
+		}
+		if !xffDeps["Upgrade"] {
+			okAll = false
+		}
+	}
+	nScheme := 0
+	why := ""
+	if !okAll {
+		why = " (X-Forwarded-For write decided by [" + depsStr(xffDeps) + "])"
+	}
+	for _, f := range reg {
+		produces := false
+		eachInstr(f, func(i ssa.Instruction) {
+			// a "ws"/"wss" that is returned, merged into a result or concatenated - not one that is compared against
+			switch x := i.(type) {
+			case *ssa.Return, *ssa.Phi, *ssa.Store:
+			case *ssa.BinOp:
+				if x.Op != token.ADD {
+					return
+				}
+			default:
+				return
+			}
+			for _, op := range i.Operands(nil) {
+				if op == nil || *op == nil {
+					continue
+				}
+				if s, ok := constString(*op); ok && (s == "ws" || s == "wss") {
+					produces = true
+				}
+			}
+		})
+		if !produces {
+			continue
+		}
+		nScheme++
+		if !reachesSite(f) {
+			okAll = false
+			why += " (" + fnKey(f) + " produces the ws/wss scheme without looking at the Upgrade header)"
+		}
+	}
+	c.atLeast("C08.X1", "functions producing the ws/wss scheme", nScheme, 1)
+	c.atLeast("C08.X1", "X-Forwarded-For writes on the request", nXFF, 1)
+	c.check("C08.X1", "package proxy|tunnel decision, X-Forwarded-For handling and scheme detection all decide on the Upgrade header", serve.Pos(), okAll && nScheme >= 1 && nXFF >= 1,
+		"the tunnel decision, the X-Forwarded-For handling and the scheme detection must all look at the Upgrade header"+why)
+	return xffDeps
+}
+
+// c08tails: the values that can be the LAST component of a string built by concatenation, strings.Join,
+// fmt.Sprintf or a repository helper (nil element / empty result: unknown).
+func c08tails(v ssa.Value, ctx c08ctx, depth int, seen map[ssa.Value]bool) []ssa.Value {
+	v, ctx = c08arg(v, ctx)
+	if v == nil || depth > 10 {
+		return []ssa.Value{nil}
+	}
+	if seen[v] { // on the current path: a cycle through a loop phi contributes nothing new
+		return nil
+	}
+	seen[v] = true
+	defer delete(seen, v)
+	switch x := v.(type) {
+	case *ssa.BinOp:
+		if x.Op == token.ADD {
+			return c08tails(x.Y, ctx, depth+1, seen)
+		}
+	case *ssa.Phi:
+		var out []ssa.Value
+		for _, e := range x.Edges {
+			out = append(out, c08tails(e, ctx, depth+1, seen)...)
+		}
+		return out
+	case *ssa.UnOp:
+		if a, ok := x.X.(*ssa.Alloc); ok && x.Op == token.MUL {
+			var out []ssa.Value
+			for _, r := range *a.Referrers() {
+				if st, ok := r.(*ssa.Store); ok && st.Addr == a {
+					out = append(out, c08tails(st.Val, ctx, depth+1, seen)...)
+				}
+			}
+			return out
+		}
+	case *ssa.Parameter:
+		idx := c08paramIndex(x)
+		sites := c08sitesOf(x.Parent())
+		if len(sites) == 0 || idx < 0 {
+			return []ssa.Value{nil}
+		}
+		var out []ssa.Value
+		for _, s := range sites {
+			if args := s.Common().Args; idx < len(args) {
+				out = append(out, c08tails(args[idx], nil, depth+1, seen)...)
+			}
+		}
+		return out
+	case *ssa.Call:
+		n := calleeName(&x.Call)
+		switch {
+		case n == "strings.Join" && len(x.Call.Args) == 2:
+			var out []ssa.Value
+			for _, e := range c08lastElems(x.Call.Args[0], ctx, 0) {
+				if e == nil {
+					return []ssa.Value{nil}
+				}
+				out = append(out, c08tails(e, ctx, depth+1, seen)...)
+			}
+			if len(out) == 0 {
+				return []ssa.Value{nil}
+			}
+			return out
+		case n == "fmt.Sprintf" && len(x.Call.Args) == 2:
+			format, ok := constString(x.Call.Args[0])
+			args := c08variadic(x.Call.Args[1])
+			if !ok || len(args) == 0 || !(strings.HasSuffix(format, "%s") || strings.HasSuffix(format, "%v")) || c08verbs(format) != len(args) {
+				return []ssa.Value{nil}
+			}
+			return c08tails(args[len(args)-1], ctx, depth+1, seen)
+		case n == "strings.TrimSpace" && len(x.Call.Args) == 1:
+			return c08tails(x.Call.Args[0], ctx, depth+1, seen)
+		}
+		if sc := x.Call.StaticCallee(); sc != nil && isRepoFn(sc) && len(sc.Blocks) > 0 && sc.Signature.Results().Len() == 1 {
+			inner := append(c08ctx{x}, ctx...)
+			var out []ssa.Value
+			eachInstr(sc, func(i ssa.Instruction) {
+				if r, ok := i.(*ssa.Return); ok {
+					out = append(out, c08tails(r.Results[0], inner, depth+1, seen)...)
+				}
+			})
+			return out
+		}
+	}
+	return []ssa.Value{v}
+}
+
+// c08verbs counts the formatting verbs of a format string (%% is not one).
+func c08verbs(format string) int {
+	n := 0
+	for i := 0; i < len(format); i++ {
+		if format[i] != '%' {
+			continue
+		}
+		if i+1 < len(format) && format[i+1] == '%' {
+			i++
+			continue
+		}
+		n++
+	}
+	return n
+}
+
+// c08variadic: the elements packed into the []any of a variadic call, in order (nil if not visible).
+func c08variadic(v ssa.Value) []ssa.Value {
+	sl, ok := v.(*ssa.Slice)
+	if !ok {
+		return nil
+	}
+	a, ok := sl.X.(*ssa.Alloc)
+	if !ok || a.Referrers() == nil {
+		return nil
+	}
+	byIdx := map[int64]ssa.Value{}
+	for _, r := range *a.Referrers() {
+		ia, ok := r.(*ssa.IndexAddr)
+		if !ok || ia.Referrers() == nil {
+			continue
+		}
+		k, isK := constInt(ia.Index)
+		if !isK {
+			return nil
+		}
+		for _, r2 := range *ia.Referrers() {
+			if st, ok := r2.(*ssa.Store); ok && st.Addr == ia {
+				byIdx[k] = stripIface(st.Val)
+			}
+		}
+	}
+	var out []ssa.Value
+	for k := int64(0); k < int64(len(byIdx)); k++ {
+		e, ok := byIdx[k]
+		if !ok {
+			return nil
+		}
+		out = append(out, e)
+	}
+	return out
+}
+
+// c08lastElems: the values that can be the last element of a slice (a nil element: unknown).
+func c08lastElems(v ssa.Value, ctx c08ctx, depth int) []ssa.Value {
+	v, ctx = c08arg(v, ctx)
+	if depth > 6 {
+		return []ssa.Value{nil}
+	}
+	switch x := v.(type) {
+	case *ssa.Slice:
+		if es := c08variadic(x); len(es) > 0 && x.Low == nil && x.High == nil {
+			return []ssa.Value{es[len(es)-1]}
+		}
+	case *ssa.Call:
+		if calleeName(&x.Call) == "builtin.append" && len(x.Call.Args) == 2 {
+			// append(a, e1, ..., en): the last appended element (a non-empty literal tail)
+			return c08lastElems(x.Call.Args[1], ctx, depth+1)
+		}
+	case *ssa.Phi:
+		var out []ssa.Value
+		for _, e := range x.Edges {
+			out = append(out, c08lastElems(e, ctx, depth+1)...)
+		}
+		return out
+	}
+	return []ssa.Value{nil}
 }
 
 // runC08A3: the address fabio itself puts into a default `Forwarded: for=` element derives from the connection only.
-func runC08A3(c *Ctx, add *ssa.Function) {
+func runC08A3(c *Ctx, reg []*ssa.Function, writes []*c08write) {
 	n := 0
-	eachInstr(add, func(i ssa.Instruction) {
-		b, ok := i.(*ssa.BinOp)
-		if !ok || b.Op != token.ADD {
-			return
-		}
-		s, isS := constString(b.X)
-		if !isS || !strings.HasSuffix(s, "for=") {
-			return
-		}
+	checkFor := func(f *ssa.Function, pos token.Pos, y ssa.Value) {
 		n++
-		k, dep := dependsOnClientHeader(b.Y)
+		k, dep := c08clientDep(y, nil)
 		if !dep {
 			// through merges (phi) as well
-			for _, d := range defsOf(b.Y) {
-				if kk, dd := dependsOnClientHeader(d.Val); dd {
+			for _, d := range defsOf(y) {
+				if kk, dd := c08clientDep(d.Val, nil); dd {
 					k, dep = kk, true
 				}
 			}
 		}
-		c.check("C08.A3", "proxy.addHeaders|Forwarded for= names the peer address", b.Pos(), fromRemoteAddr(b.Y) && !dep,
+		c.check("C08.A3", fnKey(f)+"|Forwarded for= names the peer address", pos, fromRemoteAddr(y) && !dep,
 			"when fabio supplies the Forwarded header itself, its for= element must be the peer address taken from RemoteAddr; here it (also) derives from the client's "+k+" header, so a client can make fabio vouch for a forged address")
+	}
+	eachInstrOf(reg, func(f *ssa.Function, i ssa.Instruction) {
+		switch x := i.(type) {
+		case *ssa.BinOp:
+			// "...for=" + peer
+			if s, isS := constString(x.X); x.Op == token.ADD && isS && strings.HasSuffix(s, "for=") {
+				checkFor(f, x.Pos(), x.Y)
+			}
+		case *ssa.Call:
+			// fmt.Sprintf("for=%s; proto=%s", peer, proto)
+			if calleeName(&x.Call) != "fmt.Sprintf" || len(x.Call.Args) != 2 {
+				return
+			}
+			format, ok := constString(x.Call.Args[0])
+			at := strings.Index(format, "for=%")
+			if !ok || at < 0 {
+				return
+			}
+			args := c08variadic(x.Call.Args[1])
+			k := c08verbs(format[:at])
+			if k < len(args) {
+				checkFor(f, x.Pos(), args[k])
+			} else {
+				n++
+				c.check("C08.A3", fnKey(f)+"|Forwarded for= names the peer address", x.Pos(), false, "the argument formatted after for= could not be resolved")
+			}
+		}
 	})
-	c.atLeast("C08.A3", "for= elements built in addHeaders", n, 1)
+	if n > 0 {
+		return
+	}
+	// no recognisable for= construction (strings.Builder, Join ...): decide on the whole value written to Forwarded - it
+	// may depend on the client's Forwarded / X-Forwarded-Proto / Upgrade headers (kept value, scheme detection) but on
+	// no other client header, and must carry the peer address
+	for _, w := range writes {
+		if w.key != (c08key{"const", "Forwarded"}) || w.m == "Del" {
+			continue
+		}
+		n++
+		val, vctx := w.val()
+		deps := c08deps(val, vctx)
+		for _, ok := range []string{"Forwarded", "X-Forwarded-Proto", "Upgrade"} {
+			delete(deps, ok)
+		}
+		c.check("C08.A3", w.where()+"|Forwarded for= names the peer address", w.instr.Pos(), val != nil && fromRemoteAddr(val) && len(deps) == 0,
+			"the Forwarded header fabio writes must carry the peer address taken from RemoteAddr and may not be built from the client's "+depsStr(deps)+" header")
+	}
+	c.atLeast("C08.A3", "for= elements built for the Forwarded header", n, 1)
 }
